@@ -49,7 +49,7 @@ def predicate(spec, out):
                     f"(s={spec['theta']['s']}, K prior {spec['kprior']}, offsets {spec['n_off']}, poly_trend {spec['n_poly']}, P prior in {spec['P_unit']}, P0 {spec['P0']})")
     for v in out.get("ll_in_batch", ()):
         if not (v == out["ll"] or (math.isnan(v) and math.isnan(out["ll"]))):
-            errs.append(f"marginal_ln_likelihood of the same sample is {out['ll']!r} alone but {v!r} as the last row of a batch whose earlier rows have other jitter / a capped K variance "
+            errs.append(f"marginal_ln_likelihood of the same sample is {out['ll']!r} alone but {v!r} as the last row of a batch (in memory: earlier rows with other jitter / a capped K variance; cache file: five rows in 2 and in 3 batches) "
                         f"(s={spec['theta']['s']}, K prior {spec['kprior']})")
     return errs, ll_cf
 
